@@ -32,8 +32,10 @@ PRESET_OPT = {
 }
 
 
-def cfg(preset="commonmark", opts=None, enable=(), disable=(), linkify=None):
+def cfg(preset="commonmark", opts=None, enable=(), disable=(), linkify=None, post=None):
     d = {"preset": preset}
+    if post:
+        d["post"] = [list(p) for p in post]
     if opts:
         d["opts"] = dict(opts)
     if enable:
@@ -104,6 +106,19 @@ def build(c, fresh=False):
         md.disable(c["disable"])
     if c.get("linkify") == "stub":
         md.linkify = StubLinkify()
+    for op in c.get("post") or ():
+        if op[0] == "setitem":
+            md.options[op[1]] = op[2]
+        elif op[0] == "setattr":
+            setattr(md.options, op[1], op[2])
+        elif op[0] == "update":
+            md.options.update(op[1])
+        elif op[0] == "core_disable":
+            md.core.ruler.disable(op[1])
+        elif op[0] == "render_first":
+            md.render(op[1])
+        else:
+            raise KeyError(op[0])
     if not fresh:
         _cache[k] = md
     return md
